@@ -90,8 +90,11 @@ def fns_of(body):
             res.setdefault(m.group(1), body[b:e + 1])
     return res
 
-GUARD_MEM = re.compile(r"let\s+(?:mut\s+)?(\w+)\s*=\s*self\s*\.\s*(inner|group_snapshots)\s*\.\s*(read|write)\s*\(\s*\)\s*;")
-GUARD_SQL = re.compile(r"let\s+(?:mut\s+)?(\w+)\s*=\s*self\s*\.\s*connection\s*\.\s*lock\s*\(\s*\)\s*\.\s*unwrap\s*\(\s*\)\s*;")
+# a guard bound by `let` (with or without a type annotation); after the acquisition only suffixes that keep the guard
+# may follow: .unwrap() / .expect("…") / ? / .map_err(…) / .unwrap_or_else(…)
+_KEEP = r"(?:\s*\.\s*(?:unwrap|expect|map_err|unwrap_or_else)\s*\((?:[^()]|\((?:[^()]|\([^()]*\))*\))*\)|\s*\?)*"
+GUARD_MEM = re.compile(r"let\s+(?:mut\s+)?(\w+)\s*(?::[^=;]+)?=\s*self\s*\.\s*(inner|group_snapshots)\s*\.\s*(read|write)\s*\(\s*\)" + _KEEP + r"\s*;")
+GUARD_SQL = re.compile(r"let\s+(?:mut\s+)?(\w+)\s*(?::[^=;]+)?=\s*self\s*\.\s*connection\s*\.\s*lock\s*\(\s*\)" + _KEEP + r"\s*;")
 TEMP_MEM = re.compile(r"self\s*\.\s*(inner|group_snapshots)\s*\.\s*(read|write)\s*\(\s*\)")
 TEMP_SQL = re.compile(r"self\s*\.\s*connection\s*\.\s*lock\s*\(\s*\)")
 WITH_CONN = re.compile(r"self\s*\.\s*with_connection\s*\(")
